@@ -22,4 +22,20 @@ CHECKS = {
     },
 }
 
+CHECKS["C03"] = {
+    "technique": "sibling cross-check over MIR: prepare/start/end tracker sets per Command::apply arm (reified fn pointers resolved), dominator-based gating of every reader accessor, provenance of the claim predicate",
+    "text": "Decides on every arm and every reader path that the prepare/start/end protocol agrees, that readers reach tracker data only behind the reacting flag, their own reaction variant and their own TypeId, and that the claim of pending metadata identifies the command. The last clause is violated on the current tree (claim by system id only): recorded as four known findings (F3), any other violation still alarms.",
+    "note": TRUSTED + "Not decided: the behavioural claim for arbitrary mixes of pending events (refuted by F3); payload values.",
+}
+CHECKS["C04"] = {
+    "technique": "interprocedural linear-use counting of the cleanup value over MIR (path-count summaries through crate callees and closures), dominator ordering rule in run_initialized_system, effective-visibility facts, parametricity argument for the payload take",
+    "text": "Proves for every path of every crate function that carries the cleanup that it is consumed exactly once, before the run's deferred commands in both runner configurations; that flag setters and payload types are unreachable from outside the crate; that the system-event payload is moved out of an Option without Clone bound or unsafe.",
+    "note": TRUSTED + "Not decided: user-supplied SystemCommandCallback::with closures; visibility over whole trees needs Bevy's flush order (trusted). One named exception (ReactCommands::once outer closure, already-taken arm).",
+}
+CHECKS["C12"] = {
+    "technique": "container-operation classification over MIR: every call whose receiver derives from a pending list / the postponed queue is classified against a frozen order table (append-at-back, first-match search, order-preserving removal)",
+    "text": "Decides that every container between 'sent' and 'seen' is FIFO on every path: any order-destroying or unclassified operation on the four pending lists, the postponed queue or the replay traversal is reported with its call site. Fired on the pinned tree (swap_remove, F1), repaired by fix commit 4d2420e; re-fires if it returns.",
+    "note": TRUSTED + "Not decided: 'each with its own data' for mixed kinds (C03 finding F3); Bevy's FIFO command application.",
+}
+
 NOT_APPLICABLE = {}
